@@ -215,7 +215,7 @@ def main(rep, tier):
     jobs = [dict(module="c10", func="fixpoint", kwargs=dict(shape=s.name, **sj), timeout=240 if tier == "quick" else 900) for s in shapes for sj in shard_jobs(s.name)]
     jobs += [dict(module="c10", func="kernel", kwargs=dict(spec=sp, depth=d), timeout=200) for sp, d in KERNEL_SPECS]
     jobs.append(dict(module="c10", func="from_files", kwargs={}, timeout=300))
-    e2e = []
+    e2e = [dict(module="c01", func="e2e_factory", kwargs=dict(shape="registered", skip_default=False), timeout=300)]
     if tier == "thorough":
         e2e = [dict(module="c01", func="e2e_factory", kwargs=dict(shape=s.name, skip_default=False), timeout=600) for s in shapes_for(tier)]
     results = run_jobs(jobs + e2e)
@@ -239,8 +239,8 @@ def main(rep, tier):
             if not r.get("reproduced"):
                 rep.inconc(f"counterexample {cls} ({hname} {kws}) did not reproduce natively: {smp['info']} -> {r}")
                 continue
-            if hname == "e2e_factory" and "byte-identical" not in r.get("detail", ""):
-                continue  # round-trip failures through the text belong to C01 and are reported there
+            if hname == "e2e_factory" and "byte-identical" not in r.get("detail", "") and smp["kwargs"].get("shape") != "registered":
+                continue  # round-trip failures through the text belong to C01 and are reported there (registered types: here too)
             known = rep.match_finding(cls, vals)
             if known:
                 rep.known_finding(known, f"{cls} {kws}")
